@@ -131,6 +131,11 @@ def run(ctx: Ctx):
                         bad.append(f"{e.id} (default {norm(d2)})")
             ctx.check(not bad, "R20.b", g2.key("rhs_matrix-call"), "caller leaves the bound to rhs_matrix", f"{g2.qualname} calls rhs_matrix with the constant bound {bad}: chains deeper than that fail in this entry point", g2.where(c))
 
+    ctx.rule("R20.d", "the matrices are functions of the model handed in: no function of sympytools keeps results in (or reads them back from) module-level state", floor=5)
+    from .c09 import global_mutations
+
+    global_mutations(ctx, "R20.d", only_rel="sympytools.py")
+
     ctx.rule("R20.c", "jacobi_matrix differentiates rhs_matrix(ode) with respect to states_matrix(ode)", floor=1)
     j = sm.func("sympytools.py", "jacobi_matrix")
     jv = util.value_of(ctx, j)
